@@ -129,7 +129,7 @@ def strategy(tier):
                     st.booleans()).map(list)
   lookup = st.fixed_dictionaries({'one': st.booleans(), 'keys': st.one_of(st.lists(keyspec, min_size=1, max_size=2), st.lists(keyspec, min_size=0, max_size=2)),
                                   'ord': order})
-  op = st.tuples(st.sampled_from(list(range(13))), sel, sel, sel, st.lists(sel, min_size=0, max_size=len(SRC_COLS))).map(list)
+  op = st.tuples(st.sampled_from(list(range(14))), sel, sel, sel, st.lists(sel, min_size=0, max_size=len(SRC_COLS))).map(list)
   bundle = st.lists(op, min_size=1, max_size=3)
   return st.fixed_dictionaries({
     'cls': st.integers(0, 2),
@@ -222,7 +222,7 @@ def build_lookup(spec):
 def resolve_edits(d, bundle, with_none, last_undo=None):
   """One generated bundle -> (user actions, abstract kinds)."""
   uas, kinds = [], []
-  if bundle and gi(bundle[0], 0) % 13 == 12:                    # undo the previous bundle (as the client would)
+  if bundle and gi(bundle[0], 0) % 14 == 12:                    # undo the previous bundle (as the client would)
     if last_undo:
       return [['ApplyUndoActions', last_undo]], ['undo']
     return [], []
@@ -230,7 +230,7 @@ def resolve_edits(d, bundle, with_none, last_undo=None):
   prows = d.row_ids('Probe')
   live = list(rows)
   for op in bundle[:3]:
-    k = gi(op, 0) % 13
+    k = gi(op, 0) % 14
     a, b, c, vals = gi(op, 1), gi(op, 2), gi(op, 3), g(op, 4, []) or []
     if k in (0, 1) and live:                                   # key edit
       col, ctype = KEYCOLS[b % len(KEYCOLS)]
@@ -277,6 +277,14 @@ def resolve_edits(d, bundle, with_none, last_undo=None):
       uas.append(['RemoveRecord', 'Src', rid])
       uas.append(['AddRecord', 'Src', rid, values])
       kinds.append('readd')
+    elif k == 13:                                              # replace the whole table (as an import does)
+      n = a % 5
+      ids = [1 + ((b + 2 * i) % 9) for i in range(n)]
+      ids = sorted(set(ids))
+      values = {col: [src_cell(col, ctype, gi(vals, i + j), with_none) for j in range(len(ids))]
+                for i, (col, ctype) in enumerate(SRC_COLS)}
+      values['manualSort'] = [pick(MS_POOL, c + j) for j in range(len(ids))]
+      return [['ReplaceTableData', 'Src', ids, values]], ['replace']
     elif k in (10, 11) and prows:                               # probe key edit
       col, ctype = PROBECOLS[b % len(PROBECOLS)]
       uas.append(['UpdateRecord', 'Probe', prows[a % len(prows)], {col: enc(pick(POOL[R.pure(ctype)], c))}])
@@ -301,15 +309,27 @@ class Checker(object):
     self.judged_nontrivial = set()      # lookup indices judged with >=2 matches or explicit order
     self.judged_after_edit = set()
     self.last_edit = None
+    self.replaced = False               # a ReplaceTableData was applied to Src at some point
+    self.type_history = {c: [t] for c, t in self.src_types.items()}
+    self.prev = {}                      # (lookup index, probe row index) -> cell seen at the previous check
 
   def refresh_types(self):
     self.src_types = column_types(self.d, 'Src')
+    for c, t in self.src_types.items():
+      h = self.type_history.setdefault(c, [])
+      if not h or h[-1] != t:
+        h.append(t)
 
   def check(self, stage, after_src_edit):
     """Compares every lookup cell with the reference. Returns True when a failure was recorded."""
     out = self.out
     srep = self.d.fetch_repr('Src')
     prep = self.d.fetch_repr('Probe')
+    prev, self.prev = self.prev, {}
+    for i in range(len(self.lookups)):
+      for pi, cell in enumerate(prep[3].get('L%d' % i) or []):
+        self.prev[(i, pi)] = cell
+    self.before = prev
     types = dict(self.src_types)
     rows, bad = R.table_rows(srep, types)
     prows, pbad = R.table_rows(prep, self.probe_types)
@@ -403,9 +423,45 @@ class Checker(object):
   def report(self, i, lk, pi, prow, got, exp, stage, rows, spec):
     out = self.out
     modes = '+'.join(sorted(set('%s-%s' % (m, R.pure(self.src_types.get(c, '?'))) for c, m, _, _, _ in lk['conds']))) or 'all'
+    # root cause attribution: the key was converted by the key column's OLD type and the formula is not
+    # evaluated again when only the column's type changes (no dependency on the type)
+    reconv = []
+    for col, mode, src, _hm, _me in lk['conds']:
+      hist = self.type_history.get(col, [])
+      if mode != 'eq' or len(hist) < 2:
+        continue
+      convs = []
+      for t in hist:
+        try:
+          convs.append(R.convert_key(t, R.literal(src[1]) if src[0] == 'const' else prow[src[1]]))
+        except (R.OutOfModel, KeyError):
+          convs.append(('unmodelled', t))
+      if any(c != convs[-1] for c in convs[:-1]):
+        reconv.append('%s: %s' % (col, ' -> '.join(hist)))
+    if reconv and (i, pi) in self.before and self.before[(i, pi)] == got:
+      out.fail('C13:stale:key-not-reconverted-after-key-column-type-change',
+               '%s = %r was not evaluated again although the type of its key column changed (%s) and the key converts '
+               'differently now; reference %r (%s)' % (lk['formula'], got, '; '.join(reconv), exp, stage if stage == 'initial' else 'after ' + str(self.last_edit)),
+               {'formula': lk['formula'], 'probe_row': pi + 1, 'got': got, 'expected': exp, 'type_changes': reconv})
+      return
     detail = {'formula': lk['formula'], 'probe_row': pi + 1, 'got': got, 'expected': exp, 'stage': stage,
               'last_bundle': self.last_edit, 'sort_spec': spec}
     stage_txt = stage if stage == 'initial' else 'after ' + self.last_edit
+    live = set(r['id'] for r in rows)
+    if self.replaced and not R_is_error(got) and isinstance(got, list) and len(got) == 3:
+      # root cause attribution: rows dropped by ReplaceTableData stay in the lookup index (ghost row ids)
+      if got[0] == 'r' and isinstance(got[2], list) and not lk['one']:
+        ghosts = [x for x in got[2] if x not in live]
+        if ghosts and [x for x in got[2] if x in live] == exp[2]:
+          out.fail('C13:replace-table-data-keeps-dropped-rows-in-lookup-index',
+                   '%s = %r still lists row(s) %r that ReplaceTableData removed; the table holds rows %r (%s)' % (
+                     lk['formula'], got, ghosts, sorted(live), stage_txt), detail)
+          return
+      if got[0] == 'R' and lk['one'] and got[2] not in live and got[2] != 0:
+        out.fail('C13:replace-table-data-keeps-dropped-rows-in-lookup-index',
+                 '%s = %r is a row that ReplaceTableData removed; the table holds rows %r, reference %r (%s)' % (
+                   lk['formula'], got, sorted(live), exp, stage_txt), detail)
+        return
     if R_is_error(got):
       out.fail('C13:lookup-raised:%s:%s:%s' % (got[1] if len(got) > 1 else '?', modes, stage),
                '%s raised %r where the reference expects %r (%s)' % (lk['formula'], got, exp, stage_txt), detail)
@@ -441,11 +497,33 @@ def order_label(order):
   return 'tuple'
 
 
+def _contains_replace(actions):
+  """True when a list of action reprs (user actions or an undo list) replaces a whole table's data."""
+  return any(isinstance(a, list) and a and a[0] == 'ReplaceTableData' for a in actions)
+
+
 def run_case(case):
   out = Outcome()
-  with_none = gi([g(case, 'cls', 0)], 0) % 3 == 2
-  out.cls('sort:with-none' if with_none else 'sort:homogeneous')
-  lookups = [build_lookup(s) for s in (g(case, 'lk', []) or [])[:6] if isinstance(s, dict)]
+  ex = case.get('explicit') if isinstance(case, dict) else None
+  if isinstance(ex, dict):
+    # stable witness form: formulas + their reference description + concrete data and user actions
+    out.cls('explicit-case')
+    with_none = bool(ex.get('with_none'))
+    lookups = [dict(lk, conds=[tuple(c) for c in lk.get('conds', [])], labels=[]) for lk in ex.get('lookups', [])]
+    src_vals, probe_vals = ex.get('src', {}), ex.get('probe', {})
+    n_src = max([len(v) for v in src_vals.values()] + [0])
+    n_probe = max([len(v) for v in probe_vals.values()] + [0])
+  else:
+    with_none = gi([g(case, 'cls', 0)], 0) % 3 == 2
+    out.cls('sort:with-none' if with_none else 'sort:homogeneous')
+    lookups = [build_lookup(s) for s in (g(case, 'lk', []) or [])[:6] if isinstance(s, dict)]
+    rows = [x for x in (g(case, 'rows', []) or [])[:8] if isinstance(x, list)]
+    src_vals = {col: [src_cell(col, ctype, gi(x, i), with_none) for x in rows] for i, (col, ctype) in enumerate(SRC_COLS)}
+    src_vals['manualSort'] = [pick(MS_POOL, gi(x, len(SRC_COLS))) for x in rows]
+    n_src = len(rows)
+    prows = [x for x in (g(case, 'prows', []) or [])[:3] if isinstance(x, list)] or [[0] * len(PROBECOLS)]
+    probe_vals = {col: [enc(pick(POOL[R.pure(ctype)], gi(x, i))) for x in prows] for i, (col, ctype) in enumerate(PROBECOLS)}
+    n_probe = len(prows)
   if not lookups:
     out['skipped'] = True
     return out
@@ -456,18 +534,15 @@ def run_case(case):
                 [{'id': 'KF', 'type': 'Text', 'isFormula': True, 'formula': KF_FORMULA}]]])
   if not r.ok:
     raise RuntimeError('setup failed: %r' % (r.error,))
-  rows = [x for x in (g(case, 'rows', []) or [])[:8] if isinstance(x, list)]
-  if rows:
-    vals = {col: [src_cell(col, ctype, gi(x, i), with_none) for x in rows] for i, (col, ctype) in enumerate(SRC_COLS)}
-    vals['manualSort'] = [pick(MS_POOL, gi(x, len(SRC_COLS))) for x in rows]
-    r = d.apply([['BulkAddRecord', 'Src', [None] * len(rows), vals]])
+  if n_src:
+    r = d.apply([['BulkAddRecord', 'Src', [None] * n_src, src_vals]])
     if not r.ok:
       raise RuntimeError('adding rows failed: %r' % (r.error,))
-  prows = [x for x in (g(case, 'prows', []) or [])[:3] if isinstance(x, list)] or [[0] * len(PROBECOLS)]
-  pvals = {col: [enc(pick(POOL[R.pure(ctype)], gi(x, i))) for x in prows] for i, (col, ctype) in enumerate(PROBECOLS)}
-  r = d.apply([['AddTable', 'Probe', [{'id': c, 'type': t, 'isFormula': False} for c, t in PROBECOLS] +
-                [{'id': 'L%d' % i, 'type': 'Any', 'isFormula': True, 'formula': lk['formula']} for i, lk in enumerate(lookups)]],
-               ['BulkAddRecord', 'Probe', [None] * len(prows), pvals]])
+  acts = [['AddTable', 'Probe', [{'id': c, 'type': t, 'isFormula': False} for c, t in PROBECOLS] +
+           [{'id': 'L%d' % i, 'type': 'Any', 'isFormula': True, 'formula': lk['formula']} for i, lk in enumerate(lookups)]]]
+  if n_probe:
+    acts.append(['BulkAddRecord', 'Probe', [None] * n_probe, probe_vals])
+  r = d.apply(acts)
   if not r.ok:
     raise RuntimeError('probe table failed: %r' % (r.error,))
   for lk in lookups:
@@ -476,22 +551,28 @@ def run_case(case):
   failed = ck.check('initial', False)
   n_src_edits = 0
   last_undo = None
-  for bundle in (g(case, 'edits', []) or [])[:8]:
+  bundles = ex.get('edits', []) if isinstance(ex, dict) else (g(case, 'edits', []) or [])[:8]
+  for bundle in bundles:
     if failed:
       break
     if not isinstance(bundle, list):
       continue
-    uas, kinds = resolve_edits(d, [op for op in bundle if isinstance(op, list)], with_none, last_undo)
+    if isinstance(ex, dict):
+      uas, kinds = bundle, ['explicit']
+    else:
+      uas, kinds = resolve_edits(d, [op for op in bundle if isinstance(op, list)], with_none, last_undo)
     if not uas:
       continue
     r = d.apply(uas)
     if not r.ok:
       out.cls('rejected-bundle:' + '+'.join(sorted(set(kinds))))
       break
+    if _contains_replace(uas) or (kinds == ['undo'] and _contains_replace(uas[0][1])):
+      ck.replaced = True
     last_undo = r.undo if kinds != ['undo'] else None
     for k in kinds:
       out.cls('edit:' + k)
-    if 'retype' in kinds or 'undo' in kinds:
+    if 'retype' in kinds or 'undo' in kinds or 'explicit' in kinds:
       ck.refresh_types()
     if any(k != 'probe-edit' for k in kinds):
       n_src_edits += 1
